@@ -178,6 +178,26 @@ func (r *HTTPRun) post(op *Op) *Violation {
 		}
 		defer func() { hooks.onPoint = prev }()
 	}
+	commitFailed := false
+	if boolOf(m, "commitFail") {
+		// the data commit of the completion's deletions fails
+		armed := false
+		prevP, prevF := hooks.onPoint, hooks.onFault
+		hooks.onPoint = func(owner any, name string, h int64) {
+			if name == "CompleteFullSync.beforeDeleteBatch" {
+				armed = true
+			}
+		}
+		hooks.onFault = func(owner any, name string, h int64) error {
+			if armed && name == "StoreEntities.dataCommit" {
+				armed, commitFailed = false, true
+				r.Stats["fault_completion_commit_error"]++
+				return fmt.Errorf("injected: commit of the deletions failed")
+			}
+			return nil
+		}
+		defer func() { hooks.onPoint, hooks.onFault = prevP, prevF }()
+	}
 	code, body := r.H.Do("POST", "/datasets/"+ds+"/entities", hdr, udaBody(op.Ents))
 	r.Stats["http_posts"]++
 	desc := fmt.Sprintf("POST %s start=%v id=%q end=%v (%d entities)", ds, start, id, end, len(op.Ents))
@@ -199,6 +219,16 @@ func (r *HTTPRun) post(op *Op) *Violation {
 			return viol("C09", "fullsync-protocol", "foreign-sync-id-accepted", "%s was answered %d; a batch that does not belong to the running sync must be rejected", desc, code)
 		}
 		r.ev("post rejected %d", code)
+		return nil
+	}
+	if commitFailed {
+		// the request's entities are in, its deletions are not, the sync is over
+		if code < 400 {
+			return viol("C09", "fullsync-protocol", "failed-completion-acknowledged", "%s was answered %d although the completion could not store its deletions", desc, code)
+		}
+		r.M.Batch(ds, op.Ents)
+		*s = syncState{}
+		r.ev("post end failed in completion %d", code)
 		return nil
 	}
 	if accept && !expectGone && code != 200 {
